@@ -84,7 +84,7 @@ func c19scenarioChild(raw json.RawMessage, scratch string) {
 	base := conf.Configuration{Id: "verif", SourceType: conf.RedisTypeStandalone, TargetType: conf.RedisTypeStandalone, SourceAuthType: "auth", TargetAuthType: "auth",
 		SourcePasswordRaw: a.SrcPw, TargetPasswordRaw: a.TgtPw, SourcePasswordEncoding: a.SrcPw, TargetPasswordEncoding: a.TgtPw, Parallel: 2, HttpProfile: 9320, Psync: true, TargetDB: -1,
 		SenderCount: 4, SenderSize: 65535, SenderDelayChannelSize: 65535, Metric: true, MetricPrintLog: true, KeyExists: "rewrite", TargetReplace: true, TargetVersion: "5.0.7",
-		BigKeyThreshold: 100, ScanKeyNumber: 5, Qps: 500000, SourceRdbParallel: 1, LogLevel: a.Level, Type: conf.TypeSync}
+		BigKeyThreshold: 100, ScanKeyNumber: 5, Qps: 5000, SourceRdbParallel: 1, LogLevel: a.Level, Type: conf.TypeSync}
 	newTarget := func() (*miniredis.Server, *miniredis.TCP) {
 		srv := miniredis.NewServer()
 		srv.Password = a.TgtPw
